@@ -23,8 +23,8 @@ def norm(state):
 
 
 EVENTS = [
-    "cer_valid", "cer_bad_host", "cer_bad_realm", "cer_odd",
-    "cea_valid", "cea_bad_host", "cea_bad_realm", "cea_odd",
+    "cer_valid", "cer_bad_host", "cer_bad_realm", "cer_odd", "cer_bad_host_dup", "cer_no_host_dup",
+    "cea_valid", "cea_bad_host", "cea_bad_realm", "cea_odd", "cea_bad_host_dup", "cea_bad_realm_dup",
     "dwr_valid", "dwr_bad_host", "dwa_valid", "dwa_bad_host",
     "dpr_valid", "dpr_bad_host", "dpr_other_cause",
     "dpa_valid", "dpa_bad_host",
@@ -35,7 +35,18 @@ EVENTS = [
 MESSAGE_EVENTS = [e for e in EVENTS if e not in ("peer_disc", "peer_rst", "local_stop", "idle")]
 
 
+# identity-invalid messages whose AVP *count* is made right again by a duplicated AVP:
+# for the model they are exactly as invalid as their plain counterparts
+ALIASES = {"cer_bad_host_dup": "cer_bad_host", "cer_no_host_dup": "cer_bad_host",
+           "cea_bad_host_dup": "cea_bad_host", "cea_bad_realm_dup": "cea_bad_realm"}
+
+
 def allowed(role, state, ev):
+    ev = ALIASES.get(ev, ev)
+    return _allowed(role, state, ev)
+
+
+def _allowed(role, state, ev):
     """-> (set of allowed settled states, list of obligations)
     obligations: ("answer", "CEA"|"DWA"|"DPA")  an answer echoing the ids must be written
                  ("one_dpr",)                   exactly one DPR is written
